@@ -12,6 +12,7 @@
                                               its clone() (derive(Clone): the same state);
                                               after the k calls: into_parts(), the returned detector is
                                               observed and fed one more frame of the returned source
+   chans 0 = the bare sample type as a mono frame, 1.. = arrays.
    fmt 0 f32, 1 f64 (frame samples = bit patterns), 2 i16, 3 u8 (samples = integer values;
    Float companion f32; hand-written `s as f32 / 2^k`), 10 + c for the integer format with
    ConvSpec.fmt_code c (i8 i16 I24 i32 I48 i64 u8 u16 U24 u32 U48 u64; samples = integer values):
@@ -260,19 +261,26 @@ Definition exact_amp (fmt : Z) (z : Z) : option dy :=
             end
   end.
 
+(* chans = 0: the bare sample type as a mono frame (Rms<f32, _>, Rms<i16, _>: Frame for a sample type has one
+   channel; to_float_frame is to_float_sample = to_sample, the same conversion) *)
+Definition nchan (chans : Z) : Z := if chans =? 0 then 1 else chans.
+
 Definition run_case (c : case) : list (list Z) :=
   match c with
-  | RCase fmt nostd chans first init ops =>
+  | RCase fmt nostd chans0 first init ops =>
+    let chans := nchan chans0 in
     if is64 fmt then run_rcase (NumF64sel nostd) F64.bits F64.of_bits (inconv64 fmt) chans first init ops
     else run_rcase (NumF32sel nostd) F32.bits F32.of_bits (inconv32 fmt) chans first init ops
-  | ACase fmt nostd chans n frames sq k fin cl =>
+  | ACase fmt nostd chans0 n frames sq k fin cl =>
+    let chans := nchan chans0 in
     if is64 fmt then run_acase (NumF64sel nostd) F64.bits (inconv64 fmt) chans n (eq_input fmt) frames sq k fin cl
     else run_acase (NumF32sel nostd) F32.bits (inconv32 fmt) chans n (eq_input fmt) frames sq k fin cl
   end.
 
 Definition check_code (c : case * list (list Z)) : Z :=
   match fst c with
-  | RCase fmt nostd chans first init ops =>
+  | RCase fmt nostd chans0 first init ops =>
+    let chans := nchan chans0 in
     if is64 fmt then
       code_rcase (NumF64sel nostd) F64.bits F64.of_bits (inconv64 fmt) F64.is_finite F64.is_nan B2D 53 1024
                  (exact_amp fmt) chans first init ops (snd c)
